@@ -246,7 +246,11 @@ func cmdDrive(args []string) {
 				return
 			}
 			cmd := exec.Command(j.bin, j.args...)
-			cmd.Env = append(os.Environ(), j.env...)
+			// workers keep their own scratch (candidate files of the minimiser, pristine-process
+			// inputs) below the drive's scratch directory, which is removed on every exit path of
+			// the drive - also when a worker is killed (watchdog, stop-at-first) before its own
+			// deferred clean-up runs
+			cmd.Env = append(append(os.Environ(), j.env...), "TMPDIR="+tmp)
 			errf, _ := os.Create(filepath.Join(tmp, j.name+".err"))
 			cmd.Stderr = errf
 			cmd.Stdout = errf
@@ -256,6 +260,15 @@ func cmdDrive(args []string) {
 				mu.Unlock()
 				return
 			}
+			jobStart := time.Now()
+			defer func() {
+				// worker seconds per batch (b<i>w<k> / c<i>_<k>): where the wall time of this check goes
+				key := "wallms.batch" + strings.SplitN(strings.TrimLeft(j.name, "bc"), "w", 2)[0]
+				key = strings.SplitN(key, "_", 2)[0]
+				mu.Lock()
+				total.Counters[key] += time.Since(jobStart).Milliseconds()
+				mu.Unlock()
+			}()
 			runMu.Lock()
 			running[j.name] = cmd
 			runMu.Unlock()
@@ -325,9 +338,9 @@ func cmdDrive(args []string) {
 		must = []string{"fired.short+err", "fired.zero+err", "fired.full+err", "fired.always", "fired.transient", "fired.flaky", "fired.short+nil", "probe.fault_beyond_4096", "probe.fault_at_offset_0", "probe.fault_on_last_sink_call", "control_runs",
 			"hist.c14_faulted_ops_judged", "sched.c14_ops_judged", "sched.c14_faults_fired", "probe.sweep_faulted", "errkind.temporary", "errkind.timeout", "errkind.shortwrite", "errkind.eof", "errkind.closedpipe", "errkind.epipe", "errkind.deadline", "errkind.slice", "errkind.mapstruct"}
 	case "C06":
-		must = []string{"probe.rerenders", "probe.stale_tree_renders", "probe.ops_after_failed_op", "probe.same_doc_back_to_back", "probe.renders_by_other_renderer", "probe.renders_after_other_renderer", "op.Convert", "op.PkgConvert", "op.Parse", "op.Render", "op.ParseRender"}
+		must = []string{"probe.rerenders", "probe.stale_tree_renders", "probe.ops_after_failed_op", "probe.same_doc_back_to_back", "probe.renders_by_other_renderer", "probe.renders_after_other_renderer", "probe.gap_runs", "probe.gap_runs_storm_of_failing_calls", "probe.near_miss_runs", "probe.histories_longer_than_255_ops", "probe.cfg_error_returning_node_renderers", "op.Convert", "op.PkgConvert", "op.Parse", "op.Render", "op.ParseRender"}
 	case "C15":
-		must = []string{"probe.c15_docs_with_slug_collision", "probe.c15_docs_with_suffix_collision", "probe.ops_after_failed_op", "c15.docs_with_2plus_headings", "probe.preemptions", "sched.c15_ops_judged"}
+		must = []string{"probe.c15_docs_with_slug_collision", "probe.c15_docs_with_suffix_collision", "probe.ops_after_failed_op", "probe.gap_runs", "probe.histories_longer_than_255_ops", "c15.docs_with_2plus_headings", "probe.preemptions", "sched.c15_ops_judged"}
 	case "C07":
 		must = []string{"probe.once_contended", "probe.once_blocked", "probe.preemptions", "probe.mid_init_switch", "cold_start_runs", "fresh_instance_runs", "overlap.parse|parse", "overlap.parse|render", "overlap.render|render", "op.AuxConvert", "op.Convert", "op.ParseRender", "op.PkgConvert", "op.ParseOnly", "op.RenderPre"}
 	}
